@@ -269,12 +269,22 @@ func (d *Decoder) LoadParityData() error {
 }
 
 func (d *Decoder) buildShards() [][]byte {
+	// If no parity volume was found, d.shardByteCount is zero,
+	// so make sure shards are at least as long as the longest
+	// data file.
+	shardByteCount := d.shardByteCount
+	for _, data := range d.fileData {
+		if len(data) > shardByteCount {
+			shardByteCount = len(data)
+		}
+	}
+
 	shards := make([][]byte, len(d.fileData)+len(d.parityData))
 	for i, data := range d.fileData {
 		if data == nil {
 			continue
 		}
-		padding := make([]byte, d.shardByteCount-len(data))
+		padding := make([]byte, shardByteCount-len(data))
 		shards[i] = append(data, padding...)
 	}
 
